@@ -119,10 +119,6 @@ pub fn float_line<S: Src>(s: &mut S, k: usize) {
     let on = d == 0 && inbox(f.ip, f.iq, f.ir);
     assert!(l.intersects(&f.p) == on, "Line.intersects(Coord) flipped by rounding");
     assert!(l.contains(&f.p) == (on && f.ip != f.iq && f.ip != f.ir), "Line.contains(Coord) flipped by rounding");
-    // a zero-length segment at p against the long segment, in either operand position
-    let dot = Line::new(f.p, f.p);
-    assert!(dot.intersects(&l) == on, "zero-length Line.intersects(Line) differs from point-on-segment");
-    assert!(l.intersects(&dot) == on, "Line.intersects(zero-length Line) differs from point-on-segment");
     // a segment from p to the concrete corner (r.x, q.y), which is off the line q-r
     let far = coord! { x: f.r.x, y: f.q.y };
     let ifar = (f.ir.0, f.iq.1);
@@ -134,6 +130,19 @@ pub fn float_line<S: Src>(s: &mut S, k: usize) {
     assert!(l2.intersects(&l) == want, "Line.intersects(Line) not symmetric on an ill-conditioned frame");
     vcover!(on, "query exactly on the long segment");
     vcover!(!on && d != 0, "query off the segment by less than rounding error");
+}
+
+/// a zero-length segment at p against the long segment, in either operand position
+pub fn float_dot<S: Src>(s: &mut S, k: usize) {
+    let f = frame2(s, k, true);
+    let d = det128(f.iq, f.ir, f.ip);
+    let l = Line::new(f.q, f.r);
+    let inbox = f.ip.0 >= f.iq.0.min(f.ir.0) && f.ip.0 <= f.iq.0.max(f.ir.0) && f.ip.1 >= f.iq.1.min(f.ir.1) && f.ip.1 <= f.iq.1.max(f.ir.1);
+    let on = d == 0 && inbox;
+    let dot = Line::new(f.p, f.p);
+    assert!(dot.intersects(&l) == on, "zero-length Line.intersects(Line) differs from point-on-segment");
+    assert!(l.intersects(&dot) == on, "Line.intersects(zero-length Line) differs from point-on-segment");
+    vcover!(!on && inbox, "zero-length segment inside the bounding box but off the long segment");
 }
 
 /// ring / triangle classification and winding of the thin triangle (q, r, p)
@@ -235,6 +244,10 @@ harnesses! {
     #[kani::stub(robust::orient2d, crate::stubs::orient2d_exact)] fn c03_kernel_f64_fr3(s) { float_kernel(s, 3) }
     #[kani::stub(robust::orient2d, crate::stubs::orient2d_exact)] fn c03_kernel_f32(s) { float_kernel_f32(s) }
 
+    #[kani::stub(robust::orient2d, crate::stubs::orient2d_exact)] fn c03_dot_f64_fr0(s) { float_dot(s, 0) }
+    #[kani::stub(robust::orient2d, crate::stubs::orient2d_exact)] fn c03_dot_f64_fr1(s) { float_dot(s, 1) }
+    #[kani::stub(robust::orient2d, crate::stubs::orient2d_exact)] fn c03_dot_f64_fr2(s) { float_dot(s, 2) }
+    #[kani::stub(robust::orient2d, crate::stubs::orient2d_exact)] fn c03_dot_f64_fr3(s) { float_dot(s, 3) }
     #[kani::stub(robust::orient2d, crate::stubs::orient2d_exact)] fn c03_line_f64_fr0(s) { float_line(s, 0) }
     #[kani::stub(robust::orient2d, crate::stubs::orient2d_exact)] fn c03_line_f64_fr1(s) { float_line(s, 1) }
     #[kani::stub(robust::orient2d, crate::stubs::orient2d_exact)] fn c03_line_f64_fr2(s) { float_line(s, 2) }
